@@ -25,7 +25,9 @@ def do_replay(prop, path):
     bad = not rp.get("ok", False)
     script = os.path.splitext(path)[0] + ".py"
     if os.path.exists(script):
-        p = subprocess.run([PY, script], capture_output=True, text=True, cwd=str(HERE))
+        env = dict(os.environ)
+        env["PYTHONPATH"] = env.get("VT_REPO", "/repo") + "/src"
+        p = subprocess.run([PY, script], capture_output=True, text=True, cwd=str(HERE), env=env)
         print("public-API script rc=%d\n%s%s" % (p.returncode, p.stdout[-3000:], p.stderr[-3000:]))
         bad = p.returncode != 0
     if bad:
@@ -82,7 +84,12 @@ def main():
         seen_keys = set()
         for p, r in zip(parts, results):
             if r.get("status") == "counterexample":
-                rep.handle_counterexample(p, r, confirm)
+                try:
+                    rep.handle_counterexample(p, r, confirm)
+                except Exception as e:  # noqa
+                    import traceback
+                    rep.harness_errors.append(f"{p.label}: counterexample triage crashed: {type(e).__name__}: {e} "
+                                              + traceback.format_exc()[-600:])
         if hasattr(mod, "samples"):
             rep.samples = mod.samples(parts, results)
     sys.exit(rep.finish())
